@@ -13,6 +13,7 @@ from fractions import Fraction
 from vlib import paths, proto, build
 from vlib.proto import hexs, unhex
 from checks import fuzzgen as G
+from checks import c05yin
 
 LEAN_TARGETS = ["LyModel.Props.C05", "LyModel.Props.C05JsonNum"]
 AUDIT = ["Audit/C05.lean", "Audit/C05Fn.lean"]
@@ -78,6 +79,8 @@ def _selfref_union_leafref(text):
 def classify(component, what, case):
     if not isinstance(case, dict):
         return None
+    if component == c05yin.COMP:
+        return c05yin.classify(component, what, case)
     stderr = case.get("stderr") or ""
     frames = _frames(stderr)
     entry = case.get("entry") or ""
@@ -670,6 +673,7 @@ def run_api(cx):
         cx.fail("fuzz", "context teardown: " + str(r), {"line": "0 fuzz ctxreset", "reply": r})
 
     lexer_outcomes(cx, api)
+    c05yin.run(cx, api.exe, api.env)
     cx.notes.append("api_fuzz input distribution per entry point: " + json.dumps(api.report(), sort_keys=True))
     cx.notes.append("api_fuzz: %d harness aborts handled, %.1f s in the harness; %s" % (api.crashes, api.t_spent, "; ".join("%s: %d requests, %d aborts, %.1fs" % (k, v[0], v[1], v[2]) for k, v in api.timing.items())))
 
